@@ -55,6 +55,9 @@ pub use connection::qlog::QlogStream;
 #[cfg(feature = "rustls")]
 pub use rustls;
 
+#[cfg(feature = "quinn_rs_quinn_verif")]
+pub use crate::connection::verif;
+
 mod config;
 #[cfg(feature = "qlog")]
 pub use config::QlogConfig;
